@@ -168,9 +168,9 @@ func runWr(e *Env) {
 				}
 				sc := sc
 				acts = append(acts, kernel.Action{Key: "wfault:" + sc.C.Name, Rank: 6, Weight: 3, Do: func() {
-					kind := []simnet.WriteFaultKind{simnet.WriteStall, simnet.WriteShort, simnet.WriteErr0}[tp.Next(3)]
+					kind := []simnet.WriteFaultKind{simnet.WriteStall, simnet.WriteShort, simnet.WriteErr0, simnet.WriteDeadlineErr}[tp.Next(4)]
 					off := []int{0, 1, 8, 9, 10, 40, 100, 4096, 50000}[tp.Next(9)]
-					k.Fault([]string{"", "write.short", "write.err0", "write.stall"}[kind])
+					k.Fault([]string{"", "write.short", "write.err0", "write.stall", "write.set-deadline-error"}[kind])
 					sc.C.ArmWriteFault(simnet.WriteFault{Kind: kind, K: off})
 				}})
 				acts = append(acts, kernel.Action{Key: "srvclose:" + sc.C.Name, Rank: 6, Weight: 1, Do: func() {
